@@ -19,6 +19,9 @@ pub struct Case {
     quiescent_closed: bool,
     #[serde(default)]
     force: bool,
+    /// additionally restore the backup over the (closed) source database after it has moved on
+    #[serde(default)]
+    restore_over_source: bool,
 }
 
 struct Shared {
@@ -160,8 +163,45 @@ fn test(c: &Case, obs: &mut Obs, no_compact_in_window: bool) -> CaseResult {
     // the restored database is usable
     drop(rdb);
     // the live handle is unaffected
-    if let Some(r) = live {
+    if let Some(mut r) = live {
         r.check().map_err(|f| Failure::new(format!("live-handle-after-backup:{}", f.signature), r.fail_with_log(f).message))?;
+        if c.restore_over_source {
+            // the source moves on (its log grows), is closed, and the backup is restored over it:
+            // the result must again be a state of the backup window, not a mixture with the
+            // newer files that were in place
+            obs.class("restore-over-moved-on-source");
+            let mut o2 = Obs::default();
+            for _ in 0..2 {
+                let w = vec![hist::W::CreateNode { labels: vec![1] }, hist::W::CreateEdge { s: u16::MAX, t: 0, d: 0 }];
+                r.apply(&Op::Tx { ws: w, commit: true }, false, false, &mut o2).map_err(|f| r.fail_with_log(f))?;
+            }
+            let db = r.db.take().unwrap();
+            drop(db);
+            let ndb = base.with_extension("ndb");
+            match catch(|| nervusdb::BackupManager::restore_from_backup(&bdir, info.id, &ndb)) {
+                Err((l, m)) => return Err(Failure::new(format!("panic@{l}"), m)),
+                Ok(Err(e)) => return Err(Failure::new("restore-over-source-fails", e.to_string())),
+                Ok(Ok(())) => {}
+            }
+            let rdb2 = hist::open_db(&base).map_err(|f| Failure::new(format!("restored-over-source-open-fails:{}", f.signature), f.message))?;
+            let mut ok = false;
+            let mut lastf = None;
+            for m in window.iter().rev() {
+                let d = model::dump_db(&rdb2, &uni, &m.dead).map_err(|f| Failure::new(format!("restored-read-fails:{}", f.signature), f.message))?;
+                match model::diff(m, &d, &uni) {
+                    Ok(()) => {
+                        ok = true;
+                        break;
+                    }
+                    Err(f) => lastf = Some(f),
+                }
+            }
+            obs.sub_eval(Some(fp(&(cw, kw, "over"))));
+            if !ok {
+                let f = lastf.unwrap_or(Failure::new("?", "no window state"));
+                return Err(Failure::new(format!("restored-over-source-not-in-window:{}", f.signature), format!("after restoring over the moved-on source the content equals none of the backup-window states: {}", f.message)));
+            }
+        }
     }
     Ok(())
 }
@@ -186,7 +226,8 @@ pub fn run(ctx: &mut RunCtx) {
         n,
         || {
             (hist::history(&p), hist::history(&pb), hist::history(&pb), hist::history(&pb), prop::bool::weighted(0.15))
-                .prop_map(|(before, at_start, between, at_end, quiescent_closed)| Case { before, at_start, between, at_end, quiescent_closed, force: false })
+                .prop_flat_map(|x| (Just(x), prop::bool::weighted(0.3)))
+                .prop_map(|((before, at_start, between, at_end, quiescent_closed), restore_over_source)| Case { before, at_start, between, at_end, quiescent_closed, force: false, restore_over_source })
         },
         |c: &Case, obs: &mut Obs| test(c, obs, no_compact),
     );
